@@ -51,8 +51,9 @@ package store
 //@     assert[C19:only-errors-are-queued] arg1 != nil
 //@     assert[C19:error-queue-never-blocks-a-writer] chlen(errs) < chcap(errs)
 //@     do failures = failures + 1
+// rely: only non-nil errors are ever queued (asserted at the send), so a value that was actually received is one
 //@   recv errs
-//@     assume ret0 != nil
+//@     assume ret1 ==> ret0 != nil
 //@   go writeBlobParts$1
 //@     assert[C19:part-i-is-the-ith-window] 0 <= i && p != nil && p.ID == ID && keyName(k) == ID && keyKind(k) == "blobParts" && base(p.Bytes) == base(bytes) && off(p.Bytes) == off(bytes) + i * 1000000
 //@     |   && len(p.Bytes) == min(1000000, len(bytes) - i * 1000000) && puts == i
